@@ -30,7 +30,8 @@ def check_case(case):
   if not out.ok:
     return core.result(False, labels + ['raised:%s' % out.stage])
   labels.append('returned')
-  if G.build(case['model']) != out.model_bytes or bytes(out.qt.float_model) != out.model_bytes:
+  if (G.build(case['model']) != out.model_bytes or bytes(out.qt.float_model) != out.model_bytes or
+      bytes(out.model_arg) != out.model_bytes):
     raise Violation('source_model_mutated', '')
   src, res = fb.parse(out.model_bytes), fb.parse(out.qbytes)
   ms = skeleton.match(src, res)
